@@ -302,8 +302,13 @@ struct Dumper {
     } else if (const auto *SP = dyn_cast<SizeOfPackExpr>(S)) {
       if (!SP->isValueDependent()) O["iv"] = (int64_t)SP->getPackLength();
       O["name"] = SP->getPack()->getNameAsString();
-    } else if (isa<LambdaExpr>(S)) {
+    } else if (const auto *LE = dyn_cast<LambdaExpr>(S)) {
       O["lambda"] = true;
+      if (const CXXMethodDecl *CO = LE->getCallOperator()) {
+        json::Array Ps;
+        for (const ParmVarDecl *P : CO->parameters()) Ps.push_back(declId(P));
+        O["lparams"] = std::move(Ps);
+      }
     }
     if (genericChildren) {
       json::Array Ch;
